@@ -306,6 +306,19 @@ func TestC14_FilterHistory(t *testing.T) {
 		// reserved-key events also arrive while an earlier document event of the vBucket is still unacknowledged (batching
 		// consumers): they advance the position all the same (what that does to C01 is the known finding F1, not C14's)
 		sc.KeepF1 = rapid.Bool().Draw(rt, "keepf1")
+		if sc.MetaBucket == "" && !sc.File && rapid.IntRange(0, 3).Draw(rt, "finite") == 0 {
+			// finite mode over a bucket that already holds its events: what the library itself wrote in earlier runs is
+			// often the LAST item of a vBucket (a checkpoint written at the end of the previous run)
+			sc.Finite = true
+			for v := sc.Lo; v <= sc.Hi; v++ {
+				kinds := rapid.SliceOfN(rapid.SampledFrom([]string{"mut", "mut", "del", "ikey", "txn", "cc"}), 1, 5).Draw(rt, "pre")
+				if rapid.Bool().Draw(rt, "internaltail") {
+					kinds = append(kinds, []string{"ikey", "txn"}[len(kinds)%2])
+				}
+				sc.Pre = append(sc.Pre, kinds)
+			}
+			internal = true
+		}
 		journal("C14", "c14hist", sc)
 		v, labels, _ := runHistory(&sc, known != nil, "C14")
 		if sc.MetaBucket != "" {
@@ -313,6 +326,9 @@ func TestC14_FilterHistory(t *testing.T) {
 		}
 		if sc.File {
 			labels["metadata_in_file"] = true
+		}
+		if sc.Finite {
+			labels["finite_mode_over_existing_events"] = true
 		}
 		journalDone()
 		if v != nil {
